@@ -1,5 +1,5 @@
-(* The hand-written handler model (Model/SshdProc.run_handler) equals the interpretation of the sketch
-   go2v extracts from the Go source of each handler (Gen/SshdHandlers.v, Model/SshdSketch.v).
+(* The hand-written handler model (Model/SshdProc.run_handler) equals the interpretation of the sketch /
+   decision tree go2v extracts from the Go source of each handler (Gen/SshdHandlers.v, Model/SshdSketch.v).
    Which capture group / constant / processor field feeds which event field, the outcome, the metric
    increments inside the handler and the hand-off of the login are thereby tied to the source on every run:
    a change of the source that changes the sketch makes this file fail to compile. *)
@@ -130,6 +130,64 @@ Proof.
   - intro H; simpl in H; destruct H as [H|[H|[]]]; subst; reflexivity.
 Qed.
 
+(* ================================================================================================
+   Decision trees: ALL handlers, including the two without a flat sketch
+   (public key: three outcomes and a second regex; invalid certificate: no regex, tail of the line).
+   ================================================================================================ *)
+
+Ltac expose_prog :=
+  match goal with
+  | |- run_prog ?p _ _ _ _ _ _ = _ => let q := eval hnf in p in change p with q
+  end.
+
+Ltac tie_prog :=
+  cbv beta iota zeta delta [run_handler h_simple h_accept_publickey h_accept_password h_cert_invalid h_invalid_user];
+  cbn [run_prog penv0 pe_mt pe_im pe_pid];
+  repeat match goal with
+  | |- context [match find ?re ?l with _ => _ end] => destruct (find re l)
+  | |- context [match atoi ?t with _ => _ end] => destruct (atoi t)
+  | |- context [if Nat.eqb ?a ?b then _ else _] => destruct (Nat.eqb a b)
+  | |- context [if Nat.ltb ?a ?b then _ else _] => destruct (Nat.ltb a b)
+  end;
+  reflexivity.
+
+(* Accepted publickey: match, Atoi, then  whole line / rest does not match certIDRE / rest matches *)
+Lemma pubkey_handler_matches_source : forall c tok line wok ready,
+  run_prog prog_processAcceptPublicKeyEntry c tok line wok ready penv0
+  = Some (h_accept_publickey c tok line wok ready).
+Proof. intros. expose_prog. tie_prog. Qed.
+
+(* Certificate invalid: no regex; reason = the line after len("Certificate invalid: ") or the fallback *)
+Lemma certinvalid_handler_matches_source : forall c tok line wok ready,
+  run_prog prog_processCertificateInvalidEntry c tok line wok ready penv0
+  = Some (h_cert_invalid c tok line wok).
+Proof. intros. expose_prog. tie_prog. Qed.
+
+(* the length the hand model hard-codes is the length of the prefix in the source *)
+Lemma cert_prefix_len_from_source :
+  In ("reason", FLineFrom cert_prefix_len "unknown reason") (he_data (hl_event leaf_processCertificateInvalidEntry)).
+Proof. simpl. auto. Qed.
+
+(* ALL 20 handlers: the hand model is the interpretation of generated data *)
+Theorem all_handlers_from_source :
+  forall h c tok line wok ready,
+  run_generated h c tok line wok ready = Some (run_handler h c tok line wok ready).
+Proof.
+  intros h c tok line wok ready. unfold run_generated.
+  destruct h; cbn [handler_prog]; expose_prog; tie_prog.
+Qed.
+
+(* the flat sketch and the decision tree of a handler agree *)
+Corollary sketch_and_prog_agree :
+  forall h hs, handler_sketch h = Some hs ->
+  forall c tok line wok ready, run_sketch hs c tok line wok ready = run_generated h c tok line wok ready.
+Proof.
+  intros. rewrite all_handlers_from_source. apply run_sketch_is_run_handler. assumption.
+Qed.
+
 Print Assumptions handlers_match_source.
 Print Assumptions run_sketch_is_run_handler.
 Print Assumptions sketch_coverage.
+Print Assumptions all_handlers_from_source.
+Print Assumptions pubkey_handler_matches_source.
+Print Assumptions certinvalid_handler_matches_source.
